@@ -25,7 +25,9 @@ RULE = ("histories: base tree of 4-9 entries (odd names, symlinks, optional "
         "temporary name, rename chain onto a vacated name, directory rename + "
         "child edit); after each commit nothing, an incremental upload, --full, "
         "or an upload of an older revision (--overwrite when it is not a "
-        "descendant of the remote one). An edit is dropped while generating "
+        "descendant of the remote one; now and then without --overwrite, which "
+        "must be refused with DivergedUploadedTree and leave the remote as it "
+        "was). An edit is dropped while generating "
         "(counted per class in case['excluded']) when the delta between the "
         "revision on the remote and the new tree would contain one of the listed "
         "F24 classes (vf.lib.c43_upload.listed_classes / full_upload_classes). "
@@ -80,6 +82,7 @@ def run_history(case, env, sig_prefix):
         f.write("canary\n")
     hist.commit(case["base"])
     n = 0
+    on_remote = None
     for k, step in enumerate(case["steps"]):
         if step.get("ops") is not None:
             hist.commit(step["ops"])
@@ -89,12 +92,27 @@ def run_history(case, env, sig_prefix):
         target = step.get("rev", len(hist.models) - 1)
         _assert_safe(hist.models[target])
         where = {"step": k, "mode": mode, "rev": target}
+        if mode == "refused":
+            # an older revision without --overwrite: documented refusal, and
+            # the remote stays what the last upload made it
+            from breezy.plugins.upload import cmds
+            try:
+                cu.upload(hist, remote, target, "incremental")
+            except cmds.DivergedUploadedTree:
+                pass
+            else:
+                return n, (sig_prefix + ":older-revision-uploaded-without-"
+                           "overwrite", [where])
+            target = on_remote
+            where["compared-with"] = target
         patterns = cu.patterns_of(hist.models[target])
         try:
-            cu.upload(hist, remote, target, mode)
+            if mode != "refused":
+                cu.upload(hist, remote, target, mode)
         except _upload_errors() as e:
             return n, ("%s:upload-raises-%s" % (sig_prefix, type(e).__name__),
                        [where, str(e)[:300]])
+        on_remote = target
         n += 1
         got, marker = cu.actual_remote(remote, patterns)
         want = cu.expected_remote(hist.models[target], patterns)
@@ -513,7 +531,10 @@ def gen_history(draw):
                 up = i
         if choice == "back":
             j = draw(st.integers(0, i - 1))
-            if j != up and not cu.listed_classes(models[up], models[j]) and \
+            if j < up and draw(st.integers(0, 3)) == 0:
+                step["upload"] = "refused"
+                step["rev"] = j
+            elif j != up and not cu.listed_classes(models[up], models[j]) and \
                     not cu.listed_classes(models[j], cur):
                 step["upload"] = "overwrite" if j < up else "incremental"
                 step["rev"] = j
@@ -572,6 +593,9 @@ def run_generated(case, env):
         if step.get("upload") is None:
             continue
         target = step.get("rev", len(models) - 1)
+        if step["upload"] == "refused":
+            feats.add("refused-older-revision")
+            continue
         if up is not None:
             if step["upload"] == "full":
                 listed = cu.full_upload_classes(models[up], models[target])
@@ -601,5 +625,5 @@ def kinds(tier):
         Kind("shapes", run_shape, enumerate=enum_shapes, exhaustive=False,
              hash_cases=False),
         Kind("histories", run_generated, strategy=gen_history(),
-             examples={"quick": 250, "thorough": 8000}),
+             examples={"quick": 400, "thorough": 8000}),
     ]
